@@ -64,6 +64,14 @@ type BlockPlan struct {
 	Dt       int64    `json:"dt"`
 	Proposer int      `json:"proposer"`
 	Txs      []TxPlan `json:"txs"`
+	// GovFee, when set, is a fee-market parameter update enacted by governance in this block: the module's message
+	// server runs with the governance authority before the end blockers, as the gov end blocker does for a passed proposal
+	GovFee *GovFeePlan `json:"gov_fee,omitempty"`
+}
+
+type GovFeePlan struct {
+	BaseFee     string `json:"base_fee"`
+	MinGasPrice string `json:"min_gas_price"`
 }
 
 // worldCfg steers the EVM world generator.
@@ -354,6 +362,13 @@ func (b *planBuilder) build(p TxPlan) builtTx {
 			e.SignChainID = 9000
 		case "wrongfrom":
 			e.DeclaredFrom = 1 + (p.From+1)%nEOA
+		case "longfrom":
+			// declared sender = a (funded) 32-byte account ending in the signer's address; the tx carries the nonce that
+			// account would need, so that only the sender / signature binding stands between it and admission
+			e.DeclaredLong = true
+			if _, lseq, ok := b.c.AccountInfo(b.ctx, chain.LongAddr(p.From)); ok {
+				e.Nonce = lseq
+			}
 		case "tampersig":
 			e.TamperSig = true
 		case "tamperdata":
@@ -378,7 +393,13 @@ func (b *planBuilder) build(p TxPlan) builtTx {
 		}
 		fee := new(big.Int).Mul(price, new(big.Int).SetUint64(p.Gas))
 		amt, _ := sdkmath.NewIntFromString(p.Amount)
-		msg := banktypes.NewMsgSend(chain.K(p.From).Acc(), chain.K(p.ToKey).Acc(), sdk.NewCoins(sdk.NewCoin(chain.Denom, amt)))
+		to := sdk.AccAddress(nil)
+		if p.ToKey >= 100 {
+			to = chain.LongAddr(p.ToKey - 100) // a 32-byte account that shares its tail with key ToKey-100
+		} else {
+			to = chain.K(p.ToKey).Acc()
+		}
+		msg := banktypes.NewMsgSend(chain.K(p.From).Acc(), to, sdk.NewCoins(sdk.NewCoin(chain.Denom, amt)))
 		ct := chain.CosmosTx{Signer: p.From, Msgs: []sdk.Msg{msg}, Gas: p.Gas, FeeAmount: fee.String(), SeqDelta: int64(p.NonceOff)}
 		if p.Type == 2 {
 			// dynamic-fee extension: the fee above is the cap, p.Tip the priority price
